@@ -15,12 +15,12 @@ package helpers
 //@   ensures result == childCount(n) && result >= 0
 //@ func (*FSNodeOverDag).AddChild
 //@   assumed
-//@   modifies childCount(n)
-//@   ensures err == nil ==> childCount(n) == old(childCount(n)) + 1
-//@   ensures err != nil ==> childCount(n) == old(childCount(n))
+//@   modifies childCount(n), recorded(n)
+//@   ensures err == nil ==> childCount(n) == old(childCount(n)) + 1 && recorded(n) == old(recorded(n)) + fileSize
+//@   ensures err != nil ==> childCount(n) == old(childCount(n)) && recorded(n) == old(recorded(n))
 //@ func (*FSNodeOverDag).RemoveChild
 //@   assumed
-//@   modifies childCount(n)
+//@   modifies childCount(n), recorded(n)
 //@   ensures childCount(n) == old(childCount(n)) - 1
 //@ func (*FSNodeOverDag).GetChild
 //@   assumed
@@ -36,8 +36,12 @@ package helpers
 //@   assumed
 //@ func (*FSNodeOverDag).Commit
 //@   assumed
+//@   ensures err == nil ==> typeis(result0, "*dag.ProtoNode")
+// recorded(n): the file size a node under construction records (sum of what AddChild was given)
+//@ ghost recorded(n *FSNodeOverDag) uint64
 //@ func (*FSNodeOverDag).FileSize
 //@   assumed
+//@   ensures result == recorded(n)
 //@ func (*DagBuilderHelper).Done
 //@   assumed
 //@   ensures result == exhausted(db)
@@ -56,10 +60,22 @@ package helpers
 //@   prop C07 C08
 //@   arith int-assumed
 //@   requires db != nil && node != nil && childCount(node) >= 0
-//@   modifies childCount(node), exhausted(db)
+//@   modifies childCount(node), exhausted(db), recorded(node)
 //@   loop 0 invariant[grows] childCount(node) >= old(childCount(node)) && (old(exhausted(db)) ==> exhausted(db))
 //@   loop 0 invariant[bounded] childCount(node) <= old(childCount(node)) || childCount(node) <= db.maxlinks
 //@   ensures[never_shrinks] childCount(node) >= old(childCount(node))
 //@   ensures[at_most_width] childCount(node) <= old(childCount(node)) || childCount(node) <= db.maxlinks
 //@   ensures[full_or_no_data] err == nil ==> childCount(node) >= db.maxlinks || exhausted(db)
 //@   ensures[monotone_end] old(exhausted(db)) ==> exhausted(db)
+
+// ---- C07: mode and modification time need a UnixFS (dag-pb) node to live in -----------------
+//@ func (*DagBuilderHelper).HasFileAttributes
+//@   assumed
+//@   pure
+//@ func (*DagBuilderHelper).SetFileAttributes
+//@   assumed
+//@   requires[node_can_carry_attributes] typeis(n, "*dag.ProtoNode")
+//@ func (*DagBuilderHelper).NewLeafNode
+//@   assumed
+//@ func (*DagBuilderHelper).Add
+//@   assumed
